@@ -4,7 +4,7 @@
 pat=${1:-'C*_m*'}; outf=${2:-RESULTS.txt}
 out=/verif/seeded/$outf
 tmp=$(mktemp -d)
-ls -d /verif/seeded/$pat | xargs -n1 basename | xargs -P ${MATRIX_P:-2} -I{} sh -c 's={}; p=${s%%_*}; python3 /verif/tools/mutest.py $s $p quick 2>&1 | grep -E "CAUGHT|MISSED|TOOLERR" -A1 | cut -c1-260 > '$tmp'/$s.txt'
+(cd /verif/seeded && ls -d $pat) | xargs -P ${MATRIX_P:-2} -I{} sh -c 's={}; p=${s%%_*}; python3 /verif/tools/mutest.py $s $p quick 2>&1 | grep -E "CAUGHT|MISSED|TOOLERR" -A1 | cut -c1-260 > '$tmp'/$s.txt'
 cat $tmp/*.txt > $out
 echo "DONE $(date -u +%FT%TZ) repo=$(git -C /repo rev-parse --short HEAD) verif=$(git -C /verif rev-parse --short HEAD)" >> $out
 rm -rf $tmp
